@@ -1406,6 +1406,133 @@ theorem store_int {n : CNode} {ty : ATy} {v : AVal} (h : NodeHas O n ty v) (t : 
         have hk : ((descr t).kind == TypeKind.TY_BOOL) = false := by cases t <;> first | rfl | exact absurd rfl hb
         simp only [hk, Bool.false_eq_true, ite_false, bind, Except.bind, pure, Except.pure, writeBuf_descr]
 
+/-! ## is_const_expr -/
+
+/-- **every arithmetic constant expression that has a value is accepted by `is_const_expr`** (operands that C11 says are not
+    evaluated need not have one) -/
+theorem isConst_elabA : ∀ (e : AExpr) (v : AVal), Spec.ConstF.eval O e = some v →
+    isConstExpr .wrapping (host O) (elabA e) = .ok true := by
+  intro e
+  induction e with
+  | ilit t x0 => intro v _; simp only [elabA]; exact isConst_num (host O) _ _ _ _ _ _ _ _
+  | flit T fv => intro v _; simp only [elabA]; exact isConst_num (host O) _ _ _ _ _ _ _ _
+  | un op e ih =>
+    intro v h
+    simp only [Spec.ConstF.eval] at h
+    cases he : Spec.ConstF.eval O e with
+    | none => simp [he] at h
+    | some x =>
+      have ih := ih x he
+      cases op <;> simp only [elabA, mkPromotedA, un]
+      · rw [isConst_un (host O) _ _ _ _ _ _ _ _ .ND_NEG (by simp [constUn]), isConst_cast, ih]
+      · rw [isConst_un (host O) _ _ _ _ _ _ _ _ .ND_BITNOT (by simp [constUn]), isConst_cast, ih]
+      · rw [isConst_un (host O) _ _ _ _ _ _ _ _ .ND_NOT (by simp [constUn]), ih]
+      · split
+        · rw [isConst_cast, ih]
+        · exact ih
+  | bin op a b iha ihb =>
+    intro v h
+    simp only [Spec.ConstF.eval] at h
+    cases hea : Spec.ConstF.eval O a with
+    | none => simp [hea] at h
+    | some x =>
+      cases heb : Spec.ConstF.eval O b with
+      | none => simp [hea, heb] at h
+      | some y =>
+        have iha := iha x hea; have ihb := ihb y heb
+        cases op <;> simp only [elabA, mkPromotedA, mkArithA, mkCompareA, bin] <;>
+          rw [isConst_bin (host O) _ _ _ _ _ _ _ _ _ (by simp [constBin])] <;>
+          simp only [isConst_cast, iha, ihb, bind, Except.bind, ite_true]
+  | land a b iha ihb =>
+    intro v h
+    simp only [Spec.ConstF.eval] at h
+    cases hea : Spec.ConstF.eval O a with
+    | none => simp [hea] at h
+    | some x =>
+      rw [hea] at h
+      simp only at h
+      simp only [elabA, bin]; rw [isConst_logand]
+      simp only [iha x hea, bind, Except.bind, Bool.not_true, Bool.false_eq_true, ite_false,
+        truth_node O hS (fold_float_main O hS a x hea)]
+      cases hx : Spec.ConstF.truth O x
+      · rfl
+      · simp only [hx, Bool.not_true, Bool.false_eq_true, ite_false] at h ⊢
+        cases heb : Spec.ConstF.eval O b with
+        | none => simp [heb] at h
+        | some y => exact ihb y heb
+  | lor a b iha ihb =>
+    intro v h
+    simp only [Spec.ConstF.eval] at h
+    cases hea : Spec.ConstF.eval O a with
+    | none => simp [hea] at h
+    | some x =>
+      rw [hea] at h
+      simp only at h
+      simp only [elabA, bin]; rw [isConst_logor]
+      simp only [iha x hea, bind, Except.bind, Bool.not_true, Bool.false_eq_true, ite_false,
+        truth_node O hS (fold_float_main O hS a x hea)]
+      cases hx : Spec.ConstF.truth O x
+      · simp only [hx, Bool.false_eq_true, ite_false] at h ⊢
+        cases heb : Spec.ConstF.eval O b with
+        | none => simp [heb] at h
+        | some y => exact ihb y heb
+      · rfl
+  | cond c a b ihc iha ihb =>
+    intro v h
+    simp only [Spec.ConstF.eval] at h
+    cases hec : Spec.ConstF.eval O c with
+    | none => simp [hec] at h
+    | some x =>
+      rw [hec] at h
+      simp only at h
+      simp only [elabA]; rw [isConst_cond]
+      simp only [ihc x hec, bind, Except.bind, Bool.not_true, Bool.false_eq_true, ite_false,
+        truth_node O hS (fold_float_main O hS c x hec), isConst_cast]
+      cases hx : Spec.ConstF.truth O x
+      · simp only [hx, Bool.false_eq_true, ite_false] at h ⊢
+        cases heb : Spec.ConstF.eval O b with
+        | none => simp [heb] at h
+        | some y => exact ihb y heb
+      · simp only [hx, ite_true] at h ⊢
+        cases hea : Spec.ConstF.eval O a with
+        | none => simp [hea] at h
+        | some y => exact iha y hea
+  | cast T e ih =>
+    intro v h
+    simp only [Spec.ConstF.eval] at h
+    cases he : Spec.ConstF.eval O e with
+    | none => simp [he] at h
+    | some x => simp only [elabA]; rw [isConst_cast]; exact ih x he
+
+/-- the hypothesis of `C07_constness_sound` holds for an x86-64 host on a `Sound` FPU: the `long double` made from a 64-bit
+    integer compares equal to zero exactly when the integer is zero -/
+theorem host_zeroExact : FpZeroExact (host O) := by
+  obtain ⟨n, e, hz⟩ := zero80 O hS
+  have key : ∀ k : Int, k.natAbs < 2 ^ 64 →
+      (Val.cmp (O.val80 (O.ofInt80 k)) (O.val80 (O.ofInt80 (0#32).toInt)) == .eq) = decide (k = 0) := by
+    intro k hk
+    rw [show (0#32).toInt = 0 from rfl, hz, cmp_zero_beq]
+    have := (Val.toInt_zero_iff (hS.ofInt80_val k hk)).1
+    cases hzz : (O.val80 (O.ofInt80 k)).isZero
+    · have : k ≠ 0 := fun h0 => by rw [this.2 h0] at hzz; cases hzz
+      simp [this]
+    · simp [this.1 hzz]
+  constructor
+  · intro v
+    show (Val.cmp (O.val80 (O.ofInt80 v.toInt)) (O.val80 (O.ofInt80 (0#32).toInt)) == .eq) = (v == 0#64)
+    rw [key v.toInt (by have := BitVec.toInt_lt (x := v); have := BitVec.le_toInt (x := v); omega)]
+    rw [Bool.eq_iff_iff]; simp only [decide_eq_true_eq, beq_iff_eq]
+    constructor
+    · intro h; exact BitVec.eq_of_toInt_eq (by simpa using h)
+    · intro h; subst h; rfl
+  · intro v
+    show (Val.cmp (O.val80 (O.ofInt80 v.toNat)) (O.val80 (O.ofInt80 (0#32).toInt)) == .eq) = (v == 0#64)
+    rw [key v.toNat (by have := v.isLt; omega)]
+    rw [Bool.eq_iff_iff]; simp only [decide_eq_true_eq, beq_iff_eq]
+    constructor
+    · intro h; exact BitVec.eq_of_toNat_eq (by simpa using h)
+    · intro h; subst h; rfl
+
 end nodes
 
 end ChibiVerif.C07Float
